@@ -220,7 +220,8 @@ def yaml_text(items):
 
 
 DATA_VALUES = [1, 2, "s", [1], [2, 1], {"p": 1}, {"q": [1]}, {"p": {"r": 2}}, {1, 2}, {2, 3}, None, {}, [],
-               0, "", False, "\u00e9t\u00e9", -7, 10 ** 20, {"": None}, [None, ""]]
+               0, "", False, "\u00e9t\u00e9", -7, 10 ** 20, {"": None}, [None, ""],
+               {"p": None}, {"p": {"r": None}}, {"q": None}, {"p": {}}, " ", "a\tb"]
 DATA_KEYS = ["k", "m", "l", "d"]
 
 
